@@ -69,6 +69,8 @@ def run(c, a):
                 c.fail("pred=%s cause=%s native=%d script=%s font=%s kind=%s" % (f["pred"], cause, int(ev["native"]), ev["script"], font, kind),
                        "%s text=%s whole=%s frags=%s" % (ev["id"], [hex(x) for x in ev["text"]], str(ev["whole"])[:300], str(ev["frags"])[:300]),
                        {"engine": "utb", "id": ev["id"], "text": ev["text"]})
+    from . import hbbufeng
+    hbbufeng.run_engine(c, "C18")
     c.exhaustive = False
     for l in open(traces[0]).read().split("\n")[:400]:
         if l and '"unsafe":true' in l and len(c.samples) < 2:
